@@ -33,6 +33,12 @@ type c03Case struct {
 	// (-1 = KEEPALIVE); SlowHandler makes every handler call take 1 ms of virtual time.
 	Bulk        []int  `json:"bulk,omitempty"`
 	SlowHandler bool   `json:"slow_handler,omitempty"`
+	// LongHandler: the FIRST handler call takes that many milliseconds of virtual time while the
+	// negotiated hold time is HoldS seconds and the remote keeps sending a KEEPALIVE every second
+	// (a session that is never silent must not expire, whichever timer-channel semantics apply)
+	LongHandler int  `json:"long_handler_ms,omitempty"`
+	HoldS       int  `json:"hold_s,omitempty"`
+	Legacy      bool `json:"legacy_timers,omitempty"`
 	Note        string `json:"note,omitempty"`
 }
 
@@ -96,9 +102,21 @@ func c03Run(cs c03Case, ch vrt.Chooser, trace bool) (*world.World, *vrt.Exec, *w
 	}
 	var plug *world.Plugin
 	var rem *world.Remote
-	s := &Sess{LocalAS: 65001, RemoteAS: 65002, Hold: -1, Inbound: cs.Inbound, Horizon: 20 * time.Second,
+	hold := -1
+	if cs.HoldS > 0 {
+		hold = cs.HoldS
+	}
+	s := &Sess{LocalAS: 65001, RemoteAS: 65002, Hold: hold, Inbound: cs.Inbound, Horizon: 20 * time.Second, Legacy: cs.Legacy,
 		Plugin: func(w *world.World) *world.Plugin {
 			plug = &world.Plugin{W: w, Peer: "P1", Marker: true, NoYield: ch == nil}
+			if cs.LongHandler > 0 {
+				plug.Handle = func(p *world.Plugin, s, n int, b []byte) *corebgp.Notification {
+					if n == 1 {
+						vrt.Sleep(time.Duration(cs.LongHandler) * time.Millisecond)
+					}
+					return nil
+				}
+			}
 			if cs.SlowHandler {
 				plug.Handle = func(p *world.Plugin, s, n int, b []byte) *corebgp.Notification {
 					vrt.Sleep(time.Millisecond)
@@ -121,6 +139,17 @@ func c03Run(cs c03Case, ch vrt.Chooser, trace bool) (*world.World, *vrt.Exec, *w
 			if !reach(r, stEstablished, 65002, 90) {
 				return
 			}
+			if cs.LongHandler > 0 {
+				vrt.GoWorld("remote-ka", func() {
+					for i := 0; i < 12; i++ {
+						vrt.Sleep(time.Second)
+						if r.C.IsClosed() || r.C.IsReset() || r.C.PeerClosed() {
+							return
+						}
+						r.C.Write(wire.Keepalive())
+					}
+				})
+			}
 			switch {
 			case cs.Chunk > 0:
 				r.Send(stream, cs.Chunk)
@@ -139,8 +168,9 @@ func c03Run(cs c03Case, ch vrt.Chooser, trace bool) (*world.World, *vrt.Exec, *w
 				r.C.CloseWrite()
 			}
 			// wait until everything expected was delivered (bounded)
-			vrt.NewTimer(5 * time.Second)
-			deadline := vrt.Cur().Now() + int64(5*time.Second)
+			wait := 5*time.Second + time.Duration(cs.LongHandler)*time.Millisecond
+			vrt.NewTimer(wait)
+			deadline := vrt.Cur().Now() + int64(wait)
 			vrt.WaitLog("deliveries", func() bool {
 				return vrt.Cur().Now() >= deadline || w.Count("Handler", "exit", "P1") >= expectDeliveries
 			})
@@ -375,6 +405,16 @@ func c03Check(c *harness.Ctx) {
 		for _, chunk := range []int{0, 4096, 1460} {
 			for _, slow := range []bool{false, true} {
 				if !run(c03Case{Bulk: bulk, Chunk: chunk, Coalesce: true, SlowHandler: slow, Inbound: slow}) {
+					return
+				}
+			}
+		}
+	}
+	// a handler call that outlasts the hold time while the remote is never silent
+	for _, bulk := range [][]int{{20, 23}, {3, 4077, -1, 0}} {
+		for _, legacy := range []bool{true, false} {
+			for _, hs := range [][2]int{{3, 3400}, {3, 3000}, {3, 2999}, {4, 9000}} {
+				if !run(c03Case{Bulk: bulk, Coalesce: true, LongHandler: hs[1], HoldS: hs[0], Legacy: legacy, Inbound: legacy}) {
 					return
 				}
 			}
